@@ -31,7 +31,8 @@ I, Rl = z3.Int, z3.Real
 HALF = z3.RealVal("1/2")
 
 INLINED = [f"{DS}:Dataset.{p}" for p in ("array", "ndim", "shape", "sampling", "origin", "name", "units", "signal_units", "metadata", "dtype")] + [
-    f"{VA}:ensure_valid_array", f"{VA}:validate_ndinfo", f"{VA}:validate_units"]
+    f"{VA}:ensure_valid_array", f"{VA}:validate_ndinfo", f"{VA}:validate_units",
+    f"{DS}:Dataset._normalize_axes"]  # (the last one exists only with proposed_fixes/C06_1.diff applied)
 
 
 def make_registry():
@@ -111,14 +112,15 @@ _CANARY = [False]
 
 
 class CaseContract(Contract):
+    canary_path_limit = 60  # (runner option) together with the two-alternative cut below
     """Contract whose setup enumerates argument forms.  The runner's vacuity canary (falsified postconditions must fail on a
     live path) re-explores the function; for that second pass the enumeration is cut to the first two alternatives of each
     choice - the obligations that count are all generated in the first, full pass."""
 
-    def verify(self, reg, mutate_goal=None):
+    def verify(self, reg, mutate_goal=None, **kw):
         _CANARY[0] = mutate_goal is not None
         try:
-            return super().verify(reg, mutate_goal)
+            return super().verify(reg, mutate_goal, **kw)
         finally:
             _CANARY[0] = False
 
